@@ -332,6 +332,10 @@ Section Top.
   Qed.
 
   (** ** The front ends *)
+  Lemma pmwm_no_sequences sw stable sentinels sampling size p os :
+    pmwm sw stable sentinels sampling [] size p os = Some {| p_threads := []; p_cursors := []; p_ret := 0 |}.
+  Proof. reflexivity. Qed.
+
   Lemma pmwm_parallel sw stable sentinels sampling (seqs : list (list A)) size p os :
     goes_parallel sw (length seqs) size p = true ->
     pmwm sw stable sentinels sampling seqs size p os = pmwm_base stable sampling seqs size p os.
